@@ -86,6 +86,17 @@ CLAIMED = {
             'ioapi_base/updatetflag and through CF time synthesised from TFLAG and from attributes, incl. bounds.',
             'a raise is an accepted outcome; cftime is a second reference only where it parses the unit string',
             'DESIGN.md section 4 C12'),
+    'C16': ('A', 'model_checking',
+            'bounded-exhaustive enumeration of coordinates x bounds representations x options x query points on the real val2idx vs brute-force cell search',
+            'Every strictly monotone coordinate of length 2-4 over {0,1,2,4,7} in both directions x {no bounds, 1-D '
+            'edges, n x 2 bounds} x {nearest, bounds, exact} x clean {none, mask} x bounds {ignore, warn, error} x '
+            'left/right {None, nan}, queried at every centre, edge and midpoint and 1e-6 either side of each, plus '
+            'far outside points; in-range, far-out and near-out queries in separate calls. Expected cells by brute '
+            'force; out-of-range handling must be as requested; the coordinate variable must be unchanged. Datetime '
+            'front-ends (time2idx/date2num) on ascending/descending CF time coordinates with UTC, naive and '
+            'offset-aware datetimes.',
+            'closed cells, ties accept either neighbour; without a bounds variable the outer half cells are judged '
+            'only for uniformly spaced coordinates', 'DESIGN.md section 4 C16'),
 }
 
 PENDING_REASON = ('check not built yet in this session; planned per DESIGN.md section 4 '
